@@ -33,7 +33,9 @@ const CustomSpec = `{"openapi":"3.0.3","info":{"title":"t","version":"1","x-ogen
 // ShapesSpec collects constructs whose processing ranges over a map and combines the entries:
 // masked and plain media types in one response, one oauth2 scheme in several alternatives with
 // overlapping scopes, several response headers, discriminator mappings, pattern properties next to
-// properties, x- extensions, server variables, several webhooks, parameters with content, allOf merges.
+// properties, x- extensions, server variables, several webhooks, parameters with content, allOf merges,
+// an object with a member bound whose optional members are declared before the required ones (the
+// example-value templates pick members by requiredness).
 const ShapesSpec = `{"openapi":"3.1.0","info":{"title":"t","version":"1","x-b":1,"x-a":2},
 "servers":[{"url":"https://{c}.{a}.example.com/{b}","x-ogen-server-name":"Main","variables":{"a":{"default":"x"},"b":{"default":"y","enum":["y","z"]},"c":{"default":"w"}}}],
 "paths":{
@@ -56,8 +58,9 @@ const ShapesSpec = `{"openapi":"3.1.0","info":{"title":"t","version":"1","x-b":1
   "Pet":{"oneOf":[{"$ref":"#/components/schemas/Cat"},{"$ref":"#/components/schemas/Dog"},{"$ref":"#/components/schemas/Eel"}],"discriminator":{"propertyName":"kind","mapping":{"zcat":"#/components/schemas/Cat","adog":"#/components/schemas/Dog","meel":"#/components/schemas/Eel","cat2":"#/components/schemas/Cat"}}},
   "Cat":{"type":"object","required":["kind"],"properties":{"kind":{"type":"string"},"c":{"type":"integer"}}},
   "Dog":{"type":"object","required":["kind"],"properties":{"kind":{"type":"string"},"d":{"type":"string"}}},
-  "Eel":{"type":"object","required":["kind"],"properties":{"kind":{"type":"string"},"e":{"type":"boolean"}}},
+  "Eel":{"type":"object","required":["kind"],"properties":{"kind":{"type":"string"},"e":{"type":"boolean"},"zone":{"$ref":"#/components/schemas/Zone"}}},
   "Pat":{"type":"object","patternProperties":{"^z":{"type":"string"},"^a":{"type":"string"}}},
+  "Zone":{"type":"object","maxProperties":3,"minProperties":1,"required":["id","tag"],"properties":{"note":{"type":"string"},"id":{"type":"integer"},"opt2":{"type":"boolean"},"tag":{"type":"string","nullable":true}}},
   "Merged":{"allOf":[{"type":"object","properties":{"z":{"type":"string"},"a":{"type":"integer"}},"required":["z"]},{"type":"object","properties":{"m":{"type":"boolean"},"b":{"$ref":"#/components/schemas/Pat"}},"required":["m"]},{"$ref":"#/components/schemas/Cat"}]}}}}`
 
 // RefsSpec: every kind of component, each referenced from where it can be used (and the components
